@@ -10,6 +10,7 @@ import (
 	"encoding/json"
 	"fmt"
 	"slices"
+	"strings"
 	"time"
 
 	"github.com/oasisprotocol/oasis-core/go/common/sgx"
@@ -271,16 +272,26 @@ func (ti *TCBInfo) validate(teeType TeeType, ts time.Time, policy *QuotePolicy) 
 	}
 
 	// Validate FMSPC is whitelisted.
-	if len(policy.FMSPCWhitelist) > 0 && !slices.Contains(policy.FMSPCWhitelist, ti.FMSPC) {
+	if len(policy.FMSPCWhitelist) > 0 && !containsFMSPC(policy.FMSPCWhitelist, ti.FMSPC) {
 		return fmt.Errorf("pcs/tcb: FMSPC is not whitelisted")
 	}
 
 	// Validate FMSPC is not blacklisted.
-	if slices.Contains(policy.FMSPCBlacklist, ti.FMSPC) {
+	if containsFMSPC(policy.FMSPCBlacklist, ti.FMSPC) {
 		return fmt.Errorf("pcs/tcb: FMSPC is blacklisted")
 	}
 
 	return nil
+}
+
+// containsFMSPC returns true iff the list of hexadecimal encoded FMSPCs contains the given FMSPC.
+//
+// The spelling of the hexadecimal digits is not significant (the TCB infos issued for different
+// platforms do not agree on upper or lower case).
+func containsFMSPC(list []string, fmspc string) bool {
+	return slices.ContainsFunc(list, func(entry string) bool {
+		return strings.EqualFold(entry, fmspc)
+	})
 }
 
 func (ti *TCBInfo) validateFMSPC(fmspc []byte) error {
